@@ -56,6 +56,11 @@ struct Plan {
     limits: HashMap<String, u64>,
     crash: Option<(u64, Option<u64>)>,
     delay: Option<(String, u64, u64)>,
+    // faults addressed by the ordinal of the write call / rename call instead of the global event index
+    // (stable when the number of earlier events varies, e.g. rows written in hash order)
+    failw: HashMap<u64, PointFault>,
+    crashw: Option<(u64, Option<u64>)>,
+    crashr: Option<(u64, bool)>,
 }
 
 struct State {
@@ -67,6 +72,7 @@ struct State {
     reads_xor: usize,
     writes: u64,
     open_blk: usize,
+    renames: u64,
     // sticky write failure per output file name (a full disk stays full)
     broken: HashMap<String, i32>,
 }
@@ -142,6 +148,28 @@ fn load_plan(path: &str) -> Plan {
             "crash" if t.len() == 2 => plan.crash = Some((num(1), None)),
             "crash" if t.len() == 4 && t[2] == "after" => plan.crash = Some((num(1), Some(num(3)))),
             "delay" if t.len() == 4 => plan.delay = Some((t[1].to_string(), num(2), num(3))),
+            "failw" if t.len() == 3 => {
+                plan.failw.insert(
+                    num(1),
+                    PointFault {
+                        errno: num(2) as i32,
+                        after: None,
+                    },
+                );
+            }
+            "failw" if t.len() == 5 && t[3] == "after" => {
+                plan.failw.insert(
+                    num(1),
+                    PointFault {
+                        errno: num(2) as i32,
+                        after: Some(num(4)),
+                    },
+                );
+            }
+            "crashw" if t.len() == 2 => plan.crashw = Some((num(1), None)),
+            "crashw" if t.len() == 4 && t[2] == "after" => plan.crashw = Some((num(1), Some(num(3)))),
+            "crashr" if t.len() == 2 => plan.crashr = Some((num(1), false)),
+            "crashr" if t.len() == 3 && t[2] == "after" => plan.crashr = Some((num(1), true)),
             _ => bad_plan(line),
         }
     }
@@ -173,6 +201,7 @@ fn state() -> &'static Mutex<State> {
             reads_xor: 0,
             writes: 0,
             open_blk: 0,
+            renames: 0,
             broken: HashMap::new(),
         })
     })
@@ -391,6 +420,20 @@ impl Write for File {
         st.writes += 1;
         let nth = st.writes;
 
+        // crash addressed by write ordinal: before the call, or after k bytes of it
+        if let Some((at, k)) = st.plan.crashw {
+            if at == nth {
+                let k = (k.unwrap_or(0) as usize).min(want);
+                if k > 0 {
+                    let _ = self.inner.write_all(&buf[..k]);
+                }
+                st.log(format!(
+                    "{} crash in write out {} want={} after={} (write #{})",
+                    seq, self.name, want, k, nth
+                ));
+                std::process::abort();
+            }
+        }
         // crash after k bytes of this write
         if let Some((at, Some(k))) = st.plan.crash {
             if at == seq {
@@ -408,7 +451,13 @@ impl Write for File {
             if let Some(e) = st.broken.get(&self.name) {
                 return Err(err(*e));
             }
-            if let Some(f) = st.plan.fails.get(&seq).copied() {
+            let planned = st
+                .plan
+                .fails
+                .get(&seq)
+                .copied()
+                .or_else(|| st.plan.failw.get(&nth).copied());
+            if let Some(f) = planned {
                 st.broken.insert(self.name.clone(), f.errno);
                 let k = (f.after.unwrap_or(0) as usize).min(want);
                 if k == 0 {
@@ -497,6 +546,14 @@ pub fn rename<P: AsRef<Path>, Q: AsRef<Path>>(from: P, to: Q) -> io::Result<()> 
     }
     let seq = st.next();
     st.crash_before(seq, "rename");
+    st.renames += 1;
+    let nth_rename = st.renames;
+    if let Some((j, false)) = st.plan.crashr {
+        if j == nth_rename {
+            st.log(format!("{} crash before rename #{}", seq, nth_rename));
+            std::process::abort();
+        }
+    }
     let src_size = std::fs::metadata(from.as_ref())
         .map(|m| m.len() as i64)
         .unwrap_or(-1);
@@ -516,6 +573,13 @@ pub fn rename<P: AsRef<Path>, Q: AsRef<Path>>(from: P, to: Q) -> io::Result<()> 
             Err(e) => err_str(e),
         }
     ));
+    if let Some((j, true)) = st.plan.crashr {
+        if j == nth_rename {
+            let seq2 = st.next();
+            st.log(format!("{} crash after rename #{}", seq2, nth_rename));
+            std::process::abort();
+        }
+    }
     r
 }
 
